@@ -11,7 +11,7 @@ T = {
             "All ids, all flag/code combinations and every remaining-length boundary +-2 are enumerated completely; field mixes and encoder sequences are generated (rapid), all judged against an independently written reference encoder and by decode round-trip. Complete for the enumerated sub-spaces, sampling beyond them.",
             "trusts verif/internal/refcodec (written from the OASIS text); sizes above 2 MiB are sampled, the 256 MiB maximum is tried once in the thorough tier", "4 C01"),
     "C02": ("exploration", "differential fuzzing of the decoder vs. reference decoder: exhaustive short inputs, structure-aware mutation battery, rapid mutations, native go fuzzing; framed/embedded/stream metamorphic relations",
-            "Every input is decoded by the library and by an independent strict reference decoder (leniencies L1-L4), framed to its declared length, embedded before adversarial tails and through packet.Decoder; verdict, fields, consumed count, buffer ownership and re-encodability are compared. Exhaustive for all inputs up to 2 (quick) / 3 (thorough) bytes and all short headers.",
+            "Every input is decoded by the library and by an independent strict reference decoder (leniencies L1-L4), framed to its declared length, embedded before adversarial tails and through packet.Decoder; verdict, fields, consumed count, buffer ownership, second use of a list-carrying object and re-encodability are compared. Exhaustive for all inputs up to 2 (quick) / 3 (thorough) bytes and all short headers.",
             "trusts the reference decoder and the leniency criterion of DESIGN.md section 3; absence of panics is shown only for the inputs tried", "4 C02"),
     "C03": ('exploration', 'rapid-generated packet sequences x fragmentation plans through Decoder/Encoder/BaseConn/TCP/WebSocket/concurrent connections, bounded-exhaustive split and truncation points for short streams, metamorphic chunking relation on arbitrary byte streams (rapid mutations + native go fuzzing), all compared with reference encodings',
             'Generated packet sequences are pushed through every stream layer under generated chunk plans (every split point and truncation offset for short streams), read limits, async/flush mixes, several connections at once; received packets and wire bytes are compared with the reference encodings; arbitrary byte streams must decode identically in one piece and in chunks.',
